@@ -403,7 +403,7 @@ impl Check for C08 {
     }
     fn budget(&self, tier: Tier) -> Budget {
         match tier {
-            Tier::Quick => Budget { runs: 30_000, wall_s: 90 },
+            Tier::Quick => Budget { runs: 100_000, wall_s: 90 },
             Tier::Thorough => Budget { runs: 1_500_000, wall_s: 900 },
         }
     }
